@@ -18,6 +18,24 @@ import (
 // enclosing function (and every lexically enclosing function) has no contract.
 func (w *World) assumedCallSites(callees map[*ssa.Function]bool) []string {
 	seen := map[string]bool{}
+	// closures started with `go` are not executed by the enclosing unit (sequential semantics: `go f()` starts nothing), so a contract
+	// on the enclosing function does not cover the call sites inside them
+	goTargets := map[*ssa.Function]bool{}
+	for fn := range ssautil.AllFunctions(w.Prog) {
+		for _, b := range fn.Blocks {
+			for _, ins := range b.Instrs {
+				if g, ok := ins.(*ssa.Go); ok {
+					if mc, ok := g.Call.Value.(*ssa.MakeClosure); ok {
+						if f, ok := mc.Fn.(*ssa.Function); ok {
+							goTargets[f] = true
+						}
+					} else if f := g.Call.StaticCallee(); f != nil {
+						goTargets[f] = true
+					}
+				}
+			}
+		}
+	}
 	for fn := range ssautil.AllFunctions(w.Prog) {
 		if fn.Pkg == nil || !strings.HasPrefix(fn.Pkg.Pkg.Path(), RepoModule) || fn.Synthetic != "" || len(fn.Blocks) == 0 {
 			continue
@@ -26,6 +44,9 @@ func (w *World) assumedCallSites(callees map[*ssa.Function]bool) []string {
 		for f := fn; f != nil; f = f.Parent() {
 			if w.Specs.Funcs[funcKey(f)] != nil {
 				hasSpec = true
+			}
+			if goTargets[f] {
+				break // a goroutine body: only its own contract (or that of a closure nested in it) counts
 			}
 		}
 		if hasSpec {
